@@ -752,7 +752,9 @@ class BroadcastJoin(Merge, PartitionsFiltered):
             "right_on": self.right_on,
         }
         dsk = {}
-        for part_out in self._partitions:
+        # ``part_out`` is the partition of the unfiltered join, ``i`` its position
+        # in the (possibly filtered, reordered or repeated) selection
+        for i, part_out in enumerate(self._partitions):
             if self.how != "inner":
                 dsk[(split_name, part_out)] = (
                     _split_partition,
@@ -787,7 +789,7 @@ class BroadcastJoin(Merge, PartitionsFiltered):
                     kwargs,
                 )
                 _concat_list.append(inter_key)
-            dsk[(self._name, part_out)] = (_concat_wrapper, _concat_list)
+            dsk[(self._name, i)] = (_concat_wrapper, _concat_list)
         return dsk
 
 
